@@ -180,8 +180,16 @@ def main(argv=None):
             src = next((s_ for s_ in shards if not s_.get("_env") and not s_.get("_scratch") and s_.get("kind") not in ("contracts", "cold", "xproc", "threads")), None)
             if src is not None:
                 cp = json.loads(json.dumps(src))
+                for k_ in ("countries", "codes", "methods", "pairs", "ids"):
+                    if isinstance(cp.get(k_), list) and len(cp[k_]) > 2:
+                        cp[k_] = cp[k_][: max(2, len(cp[k_]) // 4)]  # four threads share one GIL: keep the copy small
                 cp.update({"_threads": 4, "_prelude": False, "_reach": False, "_name": "threads-of-" + str(src.get("_name"))})
                 shards.append(cp)
+                # ... and once in an interpreter that turns every warning into an exception (-W error): verdicts
+                # must not depend on the warning configuration
+                cw = json.loads(json.dumps(src))
+                cw.update({"_env": {"PYTHONWARNINGS": "error"}, "_prelude": False, "_reach": False, "_name": "warnings-as-errors-of-" + str(src.get("_name"))})
+                shards.append(cw)
         if not replay and meta.get("prelude", True):
             for i_, s_ in enumerate(shards):
                 if i_ % 2 == 1 and "_prelude" not in s_:
